@@ -68,7 +68,8 @@ def apply_host_env(mode):
         lg.addHandler(h)
         lg.propagate = False
     if mode & 2:
-        warnings.filterwarnings("error", module=r"jaxtyping(\.|$)")
+        # (warnings issued by jaxtyping itself, or on behalf of its caller -- stacklevel=2 attributes them to the harness / generated modules)
+        warnings.filterwarnings("error", module=r"(jaxtyping|vf)(\.|_|$)")
 
 
 def run_shard(mod, prop, tier, seed, shard, nshards):
